@@ -161,6 +161,17 @@ def build_program(case):
         prog["aliases"].append({"name": name, "mod": nodes[u]["mod"], "target": t, "partial": True})
         nodes[u]["calls"].append({"t": t, "form": "alias", "alias": name})
         out["obs"]["programs_with_a_partial_object_around_a_helper"] += 1
+    # equal numbers of different types (1, 1.0, True) as variables read by different functions of different modules:
+    # which of them a process meets first follows import, definition and query order
+    if case["idx"] % 3 == 0:
+        readers = [u for u, nd in enumerate(nodes) if nd["kind"] in ("memento", "plain") and nd["mod"] in ("a", "b")]
+        if len(readers) >= 2:
+            base = len(prog["vars"])
+            for k, val in enumerate([1, 1.0, True, 0.0, 0]):
+                u = readers[k % len(readers)]
+                prog["vars"].append({"name": "GT%d" % k, "mod": nodes[u]["mod"], "type": "num", "value": val})
+                nodes[u]["reads"].append({"v": base + k, "form": "bare"})
+            out["obs"]["programs_with_equal_numbers_of_different_types"] += 1
     # a memento function that was defined twice (the name <function>_old still refers to the earlier definition, which
     # uses no helper): a function of its module calls both
     if case["idx"] % 4 == 3:
